@@ -34,7 +34,14 @@ def _algebraic_sqrt(engine, x):
 def sym_sqrt(engine, cx, lineno, x):
     if isinstance(x, SV):
         cx.oblige(f'call-pre.sqrt-nonneg@L{lineno}', x.e >= 0, 'call-pre', lineno)
+        # sqrt is a function: syntactically equal arguments share one root symbol (per path)
+        arg = z3.simplify(x.e)
+        cache = cx.state.setdefault('sqrt_cache', {})
+        hit = cache.get(arg.get_id())
+        if hit is not None:
+            return SV(hit[1])
         s = cx.fresh('sqrt')
+        cache[arg.get_id()] = (arg, s)
         cx.assume(z3.And(s >= 0, s * s == x.e))
         return SV(s)
     if is_num(x):
@@ -146,6 +153,9 @@ def _len(engine, cx, lineno, x):
         m, owner = x.cls.lookup('__len__')
         if owner is not None:
             return engine.call(I.BoundMethod(x, m), [], {}, cx, lineno)
+        store = engine._dict_store(x)
+        if store is not None:
+            return len(store)
     raise Unsupported(f'len({x!r})')
 
 
